@@ -307,6 +307,7 @@ class ConcHarness:
                         r = await pool.request("GET", url, extensions=dict(ext))
                         return (r.status, r.content)
                     if kind == "post":
+                        uploads[tok] = b"data-" + tok.encode()
                         r = await pool.request("POST", url, content=b"data-" + tok.encode(), extensions=dict(ext))
                         return (r.status, r.content)
                     if kind == "ipost":
@@ -922,6 +923,8 @@ def scenarios(pid, tier):
             out.append(S(ct, ["req:a", "req:a"], max_connections=2, h2script={"goaway": ids}, early=False))
             out.append(S(ct, ["post:a", "req:a"], max_connections=2, h2script={"goaway": [1, 3], "rst": 1}, early=False))
             out.append(S(ct, ["req:a:w", "post:a", "req:a"], max_connections=2, h2script={"goaway": [3, 5, 7]}, early=False))
+            # a request WITH a body is refused (last-stream-id below its stream) after the body was sent: the re-send carries the body again
+            out.append(S(ct, ["req:a:w", "post:a", "req:a"], max_connections=2, h2script={"goaway": [1, 3]}, early=False))
             # the other stream is already reading when the upload's HEADERS write is still pending (write lock order)
             out.append(S(ct, ["req:a:w", "req:a", "post:a"], max_connections=2, h2script={"goaway": [3, 5, 7]}, early=False))
             if not quick:
